@@ -175,33 +175,54 @@ func (p PubSubBackend[Result]) ListenForNotifications(
 		defer close(replyChan)
 		defer cancel()
 
+		// the caller may stop reading (it is only required to cancel): a reply that cannot be
+		// delivered is given up when the request ends, instead of blocking the listener forever
+		sendReply := func(reply Reply[Result]) {
+			select {
+			case replyChan <- reply:
+				return
+			default:
+			}
+			select {
+			case replyChan <- reply:
+			case <-ctx.Done():
+			}
+		}
+		// the final reply is best effort: it is dropped when nobody reads and the buffer is full
+		sendLastReply := func(reply Reply[Result]) {
+			select {
+			case replyChan <- reply:
+			default:
+			}
+		}
+
 		for {
 			select {
 			case <-ctx.Done():
-				replyChan <- Reply[Result]{
+				sendLastReply(Reply[Result]{
 					Error: ReplyTimeoutError{time.Since(start), ctx.Err()},
-				}
+				})
 				return
 			case notifyMsg, ok := <-notifyMsgs:
 				if !ok {
 					// subscriber is closed
-					replyChan <- Reply[Result]{
+					sendLastReply(Reply[Result]{
 						Error: ReplyTimeoutError{time.Since(start), fmt.Errorf("subscriber closed")},
-					}
+					})
 					return
 				}
 
 				resp, ok, unmarshalErr := p.handleNotifyMsg(notifyMsg, string(params.OperationID), p.marshaler)
 				if unmarshalErr != nil {
-					replyChan <- Reply[Result]{
+					sendReply(Reply[Result]{
 						Error: ReplyUnmarshalError{unmarshalErr},
-					}
+					})
 				} else if ok {
-					replyChan <- Reply[Result]{
+					sendReply(Reply[Result]{
 						HandlerResult:       resp.HandlerResult,
 						Error:               resp.Error,
 						NotificationMessage: notifyMsg,
-					}
+					})
 				}
 
 				// we assume that more messages may arrive (in case of fan-out commands handling) - we don't exit yet
